@@ -8,6 +8,7 @@ import (
 	"sort"
 	"strings"
 	"time"
+	"unicode/utf8"
 
 	"verifharness/internal/hx"
 	"verifharness/internal/proto"
@@ -310,6 +311,9 @@ func run(c *hx.Ctx) error {
 				if finding == "" && hugeArrayClass(c, b, br, buildOne) {
 					finding = "huge-array-build-allocates" // confirmed by the counterfactual run
 				}
+				if finding == "" && disasmMultibyteClass(c, b, br, buildOne) {
+					finding = "disassemble-rune-limit-multibyte"
+				}
 				res.AddBreak(proto.Break{Kind: "property", Name: cl, Case: rp.Case, Human: humanBuild(b), Impl: br.Status + " " + br.Msg + " @" + br.Site + " " + br.Detail,
 					Model: "no panic, no crash, no hang, no leak", Finding: finding})
 			}
@@ -499,9 +503,13 @@ func run(c *hx.Ctx) error {
 		if clause == "" {
 			continue
 		}
-		sig := clause + "|" + br.Msg + "|" + br.Site
+		sig := clause + "|" + digitsRe.ReplaceAllString(br.Msg, "#") + "|" + br.Site
 		if hugeArrayClass(c, b, br, buildOne) {
 			res.Hist("build-huge-array-confirmed-by-counterfactual")
+			continue
+		}
+		if disasmMultibyteClass(c, b, br, buildOne) {
+			res.Hist("build-disassemble-multibyte-confirmed-by-counterfactual")
 			continue
 		}
 		if strings.HasPrefix(br.Status, "CRASH") || br.Status == "OOM" {
@@ -524,29 +532,57 @@ func run(c *hx.Ctx) error {
 		}
 		bshrunk[sig] = true
 		min := b
-		if len(bshrunk) <= 10 {
-			// shrink the file whose removal of bytes keeps the same failure; other files stay
+		same := func(bb lexh.BuildCase) bool {
+			r2 := buildOne(bb)
+			return buildClause(r2) == clause && digitsRe.ReplaceAllString(r2.Msg, "#") == digitsRe.ReplaceAllString(br.Msg, "#") && r2.Site == br.Site
+		}
+		if len(bshrunk) <= 40 {
+			// first drop the files that are not needed
 			for _, n := range sortedNames(b.Files) {
+				if n == b.Entry || len(min.Files) == 1 {
+					continue
+				}
+				nf := map[string][]byte{}
+				for k, v := range min.Files {
+					if k != n {
+						nf[k] = v
+					}
+				}
+				if cand := (lexh.BuildCase{Kind: b.Kind, Entry: b.Entry, Files: nf}); same(cand) {
+					min = cand
+				}
+			}
+			// shrink the file whose removal of bytes keeps the same failure; other files stay
+			// the format that matters least: HTML
+			if min.Kind == 't' && len(min.Files) == 1 && min.Entry != "index.html" {
+				if cand := (lexh.BuildCase{Kind: 't', Entry: "index.html", Files: map[string][]byte{"index.html": min.Files[min.Entry]}}); same(cand) {
+					min = cand
+				}
+			}
+			for _, n := range sortedNames(min.Files) {
 				n := n
 				md := lexh.Shrink(min.Files[n], func(x []byte) bool {
-					bb := lexh.BuildCase{Kind: b.Kind, Entry: b.Entry, Files: map[string][]byte{}}
+					bb := lexh.BuildCase{Kind: min.Kind, Entry: min.Entry, Files: map[string][]byte{}}
 					for k, v := range min.Files {
 						bb.Files[k] = v
 					}
 					bb.Files[n] = x
-					r2 := buildOne(bb)
-					return buildClause(r2) == clause && r2.Msg == br.Msg && r2.Site == br.Site
+					return same(bb)
 				}, budget)
 				nf := map[string][]byte{}
 				for k, v := range min.Files {
 					nf[k] = v
 				}
 				nf[n] = md
-				min = lexh.BuildCase{Kind: b.Kind, Entry: b.Entry, Files: nf}
+				min = lexh.BuildCase{Kind: min.Kind, Entry: min.Entry, Files: nf}
 			}
 			br = buildOne(min)
 		}
-		res.AddBreak(proto.Break{Kind: "property", Name: clause, Case: "C04 build " + min.Line(), Human: humanBuild(min),
+		name := clause
+		if br.Site != "" {
+			name += " @" + br.Site + " (" + digitsRe.ReplaceAllString(firstWords(br.Msg, 5), "#") + ")"
+		}
+		res.AddBreak(proto.Break{Kind: "property", Name: name, Case: "C04 build " + min.Line(), Human: humanBuild(min),
 			Impl:    br.Status + " " + br.Msg + " @" + br.Site + " " + br.Detail + fmt.Sprintf(" leak=%d", br.Leak),
 			Model:   "result or *BuildError (or fs.ErrNotExist for the named file) within the timeout, no goroutine left",
 			Finding: knownFor("build " + min.Line())})
@@ -586,6 +622,48 @@ func hugeArrayClass(c *hx.Ctx, b lexh.BuildCase, br lexh.BuildResult, buildOne f
 	}
 	r2 := buildOne(small)
 	return !isOOM(r2) && r2.Status != "HANG" && !strings.HasPrefix(r2.Status, "CRASH")
+}
+
+var digitsRe = regexp.MustCompile(`[0-9]+`)
+
+func firstWords(s string, n int) string {
+	f := strings.Fields(s)
+	if len(f) > n {
+		f = f[:n]
+	}
+	return strings.Join(f, " ")
+}
+
+// disasmMultibyteClass tells whether a panic of Template.Disassemble is the known finding
+// disassemble-rune-limit-multibyte (exact minimal input replayed at the start of every run): disassembleText cuts a
+// text at a rune limit by adding up the size of the FIRST rune, so a text that starts with a multi-byte character
+// is sliced past its end. Counterfactual test: the same sources with every non-ASCII rune replaced by `a` must
+// disassemble without panic; otherwise the failure is searched and reported like any other.
+func disasmMultibyteClass(c *hx.Ctx, b lexh.BuildCase, br lexh.BuildResult, buildOne func(lexh.BuildCase) lexh.BuildResult) bool {
+	if br.Status != "disasm-panic" || !strings.Contains(br.Site, "disassembleText") || !c.HasFinding("disassemble-rune-limit-multibyte") {
+		return false
+	}
+	ascii := lexh.BuildCase{Kind: b.Kind, Entry: b.Entry, Files: map[string][]byte{}}
+	changed := false
+	for n, d := range b.Files {
+		var nd []byte
+		for len(d) > 0 {
+			r, size := utf8.DecodeRune(d)
+			if r >= utf8.RuneSelf {
+				nd = append(nd, 'a')
+				changed = true
+			} else {
+				nd = append(nd, d[0])
+			}
+			d = d[size:]
+		}
+		ascii.Files[n] = nd
+	}
+	if !changed {
+		return false
+	}
+	r2 := buildOne(ascii)
+	return r2.Status == "ok" || r2.Status == "builderror" || r2.Status == "notexist"
 }
 
 func isOOM(br lexh.BuildResult) bool {
